@@ -3,6 +3,7 @@ import Cactus.Lemmas.Once
 import Cactus.Lemmas.NoErr
 import Cactus.Lemmas.Basic
 import Cactus.Lemmas.Table
+import Cactus.Lemmas.Shared.OneStep   -- `Shared.purgeOne_skips_self` (also used by `Props/C10.lean`)
 /-!
 # C12 — handle-consuming APIs stay sound on objects that take part in adoptions
 
@@ -36,8 +37,8 @@ theorem C12_purge_entry (t : Table) (hw : t.WF) (x n : Nat) (hf : t.get ⟨x, .f
 
 /-- the purge loop never touches the object's own table while iterating over it (the `ptr::eq`
 self-skip, drop.rs:379): no nested borrow of the same `RefCell` -/
-theorem C12_purge_skips_self (x : Nat) (s : State) (e : Link × Nat) (h : e.1.ptr = x) : purgeOne x s e = s := by
-  simp [State.purgeOne, h]
+theorem C12_purge_skips_self (x : Nat) (s : State) (e : Link × Nat) (h : e.1.ptr = x) : purgeOne x s e = s :=
+  Shared.purgeOne_skips_self x s e h
 
 /-- a purge step changes nothing but the table of the peer it names -/
 theorem C12_purgeOne_core (x : Nat) (s : State) (e : Link × Nat) (o : Nat) (ho : o ≠ e.1.ptr) :
